@@ -3,6 +3,13 @@
 import json, sys
 
 CLAIMED = {
+ "C08": dict(
+   category="model_checking",
+   text="(a) Decision function through its public seam: one real ObjectDeployment pass over every pre-populated chain of 2 revisions (each revision: lifecycle Active/Paused/Archived x Paused condition x Available x objects {a},{b},{a,b} x control reported/unreported/none = 108 shapes; revisionHistoryLimit nil/0/1/2; newest matching the template or not) and of 3 revisions (quick: 24^3 shapes with fixed object sets; thorough: 108 x 108 x 72), with managed objects in the store consistent with the control relation: 97 632 passes quick. Every request of the pass is judged against the reference rule transcribed from the statement: a revision is switched to Archived only if its Paused condition is True at that instant, it is not the newest, and (a newer revision is Available, or it is itself not Available and controls nothing the next newer revision contains); deletes hit only the oldest max(0, |previous| - limit) previous revisions, never the newest. (b) Explicit-state BFS to closure over the real ObjectDeployment and ObjectSet controllers during T1{a,b} -> T2{a,c} (-> T1 thorough) handovers with workload status changes and GC: same oracle on every deployment pass, and no delete request ever hits an object that the newest revision contains.",
+   design_ref="DESIGN.md §7 C08, Appendix A.2",
+   note="Trusted: kmodel; 'controls' = ownerReferences in the store; empty controllerOf is indistinguishable from unreported (omitempty).",
+   technique="exhaustive decision-table enumeration through the real reconciler + explicit-state BFS, request-level oracle",
+   engine="world"),
  "C07": dict(
    category="model_checking",
    text="Explicit-state BFS to closure (5 systems quick ~26 000 states, 9 thorough) over the real ObjectDeployment and ObjectSet controllers: template edit sequences over {T1{a,b}, T2{a,c}, no phases} including reverting (2-3 edits), reconciles in any order, every fault kind (error before effect, effect with lost response, crash) at every request of the deployment's pass, a deployment pass whose List does not yet show the ObjectSet a preceding pass created (the staleness the code handles), pause/unpause, and pre-seeded name clashes (archived / different spec / controlled by someone else). Monitor on every deployment pass, from the statement: a create happens only when unpaused, all existing revisions have reported, the template has phases; the created spec equals the template and previous names every existing ObjectSet; at most one create per pass; an unmatched template with all preconditions met leads to a create (or a clash); a clash with an archived / differing / foreign ObjectSet bumps the collision counter instead of being accepted. State invariant: reported revision numbers are pairwise distinct and greater than those of the ObjectSets in previous.",
